@@ -3,7 +3,9 @@
 package e1lib
 
 import (
+	"encoding/json"
 	"fmt"
+	"os"
 	"runtime"
 	"time"
 
@@ -19,8 +21,26 @@ import (
 // only counted, never reported as a violation.
 var Timeouts int
 
+// Conformed counts the real executions whose complete output tuple (obs.Project) was found among the tuples of
+// the exhaustively explored terminal states of the same scenario; Compared counts the scenarios for which such a
+// set was available (explored completely and without a bound).
+var Conformed, Compared int
+
 func (s *Scenario) RunReal(runs int) (done int, violation string) {
 	procs := []int{1, 2, 4, 16}
+	var explored map[string]bool
+	if pf := s.ProjFile(); pf != "" {
+		if b, err := os.ReadFile(pf); err == nil {
+			var ps []string
+			if json.Unmarshal(b, &ps) == nil {
+				explored = map[string]bool{}
+				for _, p := range ps {
+					explored[p] = true
+				}
+				Compared++
+			}
+		}
+	}
 	for i := 0; i < runs; i++ {
 		runtime.GOMAXPROCS(procs[i%len(procs)])
 		env.Reset()
@@ -39,6 +59,12 @@ func (s *Scenario) RunReal(runs int) (done int, violation string) {
 				o = env.Snapshot()
 				if m := s.Check(o); m != "" {
 					return done, fmt.Sprintf("%s (real runtime, run %d, GOMAXPROCS %d)", m, i, procs[i%len(procs)])
+				}
+				if explored != nil {
+					if p := o.Project(s.RealDone); !explored[p] {
+						return done, fmt.Sprintf("CONFORMANCE|the real runtime produced the outcome %q, which is not among the %d outcomes of the exhaustive exploration of this scenario on the simulated runtime", p, len(explored))
+					}
+					Conformed++
 				}
 				done++
 				break
